@@ -3,47 +3,134 @@ From Whawty Require Import Bytes.
 From Coq Require Import ZifyN ZifyNat ZifyBool.
 Open Scope N_scope.
 
+Local Ltac Zify.zify_post_hook ::= Z.div_mod_to_equations.
+
 Lemma beq_refl s : beq s s = true.
-Admitted.
+Proof.
+  induction s as [|x s IH]; cbn [beq]; auto.
+  rewrite N.eqb_refl, IH. reflexivity.
+Qed.
 
 Lemma beq_eq a b : beq a b = true <-> a = b.
-Admitted.
+Proof.
+  split.
+  - revert b. induction a as [|x a IH]; intros [|y b] H; cbn [beq] in H;
+      try discriminate; auto.
+    apply andb_true_iff in H. destruct H as [H1 H2].
+    apply N.eqb_eq in H1. apply IH in H2. subst. reflexivity.
+  - intros ->. apply beq_refl.
+Qed.
 
 Lemma beq_neq a b : beq a b = false <-> a <> b.
-Admitted.
-
-Lemma contains_app sep a b : contains sep (a ++ b) = contains sep a || contains sep b.
-Admitted.
+Proof.
+  split.
+  - intros H E. apply beq_eq in E. congruence.
+  - intros H. destruct (beq a b) eqn:E; auto.
+    apply beq_eq in E. contradiction.
+Qed.
 
 Lemma contains_cons sep x a : contains sep (x :: a) = (x =? sep) || contains sep a.
-Admitted.
+Proof.
+  unfold contains. cbn [index_of].
+  destruct (x =? sep); cbn [orb]; auto.
+  destruct (index_of sep a); auto.
+Qed.
+
+Lemma contains_nil sep : contains sep [] = false.
+Proof. reflexivity. Qed.
+
+Lemma contains_app sep a b : contains sep (a ++ b) = contains sep a || contains sep b.
+Proof.
+  induction a as [|x a IH]; cbn [app].
+  - reflexivity.
+  - rewrite !contains_cons, IH. apply orb_assoc.
+Qed.
 
 Lemma contains_forallb sep a : contains sep a = false <-> forallb (fun b => negb (b =? sep)) a = true.
-Admitted.
+Proof.
+  induction a as [|x a IH].
+  - cbn. tauto.
+  - rewrite contains_cons. cbn [forallb].
+    rewrite orb_false_iff, andb_true_iff, IH, negb_true_iff. tauto.
+Qed.
 
 Lemma index_of_app_notin sep a b :
   contains sep a = false -> index_of sep (a ++ sep :: b) = Some (length a).
-Admitted.
+Proof.
+  induction a as [|x a IH]; intros H.
+  - cbn [app index_of length]. rewrite N.eqb_refl. reflexivity.
+  - rewrite contains_cons in H. apply orb_false_iff in H. destruct H as [H1 H2].
+    cbn [app index_of length]. rewrite H1, (IH H2). reflexivity.
+Qed.
 
 Lemma index_of_none sep a : contains sep a = false -> index_of sep a = None.
-Admitted.
+Proof.
+  unfold contains. destruct (index_of sep a); auto. discriminate.
+Qed.
 
 Lemma index_of_some_split sep s i :
   index_of sep s = Some i ->
   s = firstn i s ++ sep :: skipn (S i) s /\ contains sep (firstn i s) = false.
-Admitted.
+Proof.
+  revert i. induction s as [|x s IH]; intros i H.
+  - discriminate.
+  - cbn [index_of] in H. destruct (x =? sep) eqn:E.
+    + injection H as <-. apply N.eqb_eq in E. subst.
+      cbn. auto.
+    + destruct (index_of sep s) as [j|] eqn:Ej; [|discriminate].
+      injection H as <-. destruct (IH j eq_refl) as [H1 H2].
+      cbn [firstn app]. rewrite contains_cons, E, H2. split; auto.
+      change (skipn (S (S j)) (x :: s)) with (skipn (S j) s).
+      rewrite <- H1. reflexivity.
+Qed.
 
 (* strings.SplitN *)
 Lemma splitN_cons sep n a rest :
   contains sep a = false ->
   splitN sep (S (S n)) (a ++ sep :: rest) = a :: splitN sep (S n) rest.
-Admitted.
+Proof.
+  intros H. cbn [splitN]. rewrite (index_of_app_notin _ _ _ H).
+  rewrite firstn_app, firstn_all, Nat.sub_diag. cbn [firstn]. rewrite app_nil_r.
+  replace (skipn (S (length a)) (a ++ sep :: rest)) with rest; auto.
+  rewrite skipn_app, skipn_all2 by lia.
+  replace (S (length a) - length a)%nat with 1%nat by lia. reflexivity.
+Qed.
 
 Lemma splitN_one sep s : splitN sep 1 s = [s].
-Admitted.
+Proof. reflexivity. Qed.
 
 Lemma splitN_nosep sep n s : contains sep s = false -> splitN sep (S n) s = [s].
-Admitted.
+Proof.
+  intros H. destruct n; cbn [splitN]; auto.
+  rewrite (index_of_none _ _ H). reflexivity.
+Qed.
+
+Lemma splitN_SS_inv sep n s a l :
+  splitN sep (S (S n)) s = a :: l -> l <> [] ->
+  exists rest, s = a ++ sep :: rest /\ contains sep a = false /\ l = splitN sep (S n) rest.
+Proof.
+  intros H Hl. cbn [splitN] in H.
+  destruct (index_of sep s) as [i|] eqn:E.
+  - injection H as H1 H2. destruct (index_of_some_split _ _ _ E) as [H3 H4].
+    exists (skipn (S i) s). subst a. auto.
+  - injection H as H1 H2. subst l. contradiction.
+Qed.
+
+Lemma splitN2_inv sep s a b :
+  splitN sep 2 s = [a; b] -> s = a ++ sep :: b /\ contains sep a = false.
+Proof.
+  intros H. apply splitN_SS_inv in H; [|discriminate].
+  destruct H as (r & H1 & H2 & H3). cbn [splitN] in H3. injection H3 as <-. auto.
+Qed.
+
+Lemma splitN3_inv sep s a b c :
+  splitN sep 3 s = [a; b; c] ->
+  s = a ++ sep :: b ++ sep :: c /\ contains sep a = false /\ contains sep b = false.
+Proof.
+  intros H. apply splitN_SS_inv in H; [|discriminate].
+  destruct H as (r & H1 & H2 & H3). symmetry in H3. apply splitN2_inv in H3.
+  destruct H3 as [H3 H4]. subst. auto.
+Qed.
 
 (* if SplitN(s, sep, 4) has exactly four parts, s is their join and the
    first three are separator-free *)
@@ -51,66 +138,227 @@ Lemma splitN4_inv sep s a b c d :
   splitN sep 4 s = [a; b; c; d] ->
   s = a ++ sep :: b ++ sep :: c ++ sep :: d /\
   contains sep a = false /\ contains sep b = false /\ contains sep c = false.
-Admitted.
-
-Lemma splitN3_inv sep s a b c :
-  splitN sep 3 s = [a; b; c] ->
-  s = a ++ sep :: b ++ sep :: c /\ contains sep a = false /\ contains sep b = false.
-Admitted.
-
-Lemma splitN2_inv sep s a b :
-  splitN sep 2 s = [a; b] -> s = a ++ sep :: b /\ contains sep a = false.
-Admitted.
+Proof.
+  intros H. apply splitN_SS_inv in H; [|discriminate].
+  destruct H as (r & H1 & H2 & H3). symmetry in H3. apply splitN3_inv in H3.
+  destruct H3 as (H3 & H4 & H5). subst. auto.
+Qed.
 
 (* strings.Split *)
 Lemma split_all_nosep sep a : contains sep a = false -> split_all sep a = [a].
-Admitted.
+Proof.
+  induction a as [|x a IH]; intros H.
+  - reflexivity.
+  - rewrite contains_cons in H. apply orb_false_iff in H. destruct H as [H1 H2].
+    cbn [split_all]. rewrite H1, (IH H2). reflexivity.
+Qed.
 
 Lemma split_all_cons sep a rest :
   contains sep a = false -> split_all sep (a ++ sep :: rest) = a :: split_all sep rest.
-Admitted.
+Proof.
+  induction a as [|x a IH]; intros H.
+  - cbn [app split_all]. rewrite N.eqb_refl. reflexivity.
+  - rewrite contains_cons in H. apply orb_false_iff in H. destruct H as [H1 H2].
+    cbn [app split_all]. rewrite H1, (IH H2). reflexivity.
+Qed.
+
+Lemma split_all_nonempty sep s : split_all sep s <> [].
+Proof.
+  destruct s as [|x s]; cbn [split_all]; [discriminate|].
+  destruct (x =? sep); [discriminate|].
+  destruct (split_all sep s); discriminate.
+Qed.
+
+Lemma split_all_inv sep s a l :
+  split_all sep s = a :: l ->
+  contains sep a = false /\
+  (l = [] /\ s = a \/ exists rest, s = a ++ sep :: rest /\ l = split_all sep rest).
+Proof.
+  revert a l. induction s as [|x s IH]; intros a l H.
+  - cbn in H. injection H as <- <-. cbn. auto.
+  - cbn [split_all] in H. destruct (x =? sep) eqn:E.
+    + injection H as <- <-. apply N.eqb_eq in E. subst x. split; [reflexivity|].
+      right. exists s. auto.
+    + destruct (split_all sep s) as [|p ps] eqn:Es.
+      * exfalso. eapply split_all_nonempty; eauto.
+      * injection H as <- <-. destruct (IH p ps eq_refl) as [H1 H2].
+        rewrite contains_cons, E, H1. split; auto.
+        destruct H2 as [[H2 H3]|(rest & H2 & H3)].
+        -- left. subst. auto.
+        -- right. exists rest. subst. auto.
+Qed.
 
 Lemma split_all2_inv sep s a b :
   split_all sep s = [a; b] ->
   s = a ++ sep :: b /\ contains sep a = false /\ contains sep b = false.
-Admitted.
+Proof.
+  intros H. apply split_all_inv in H. destruct H as [H1 [[H2 _]|(rest & H2 & H3)]].
+  - discriminate.
+  - symmetry in H3. apply split_all_inv in H3.
+    destruct H3 as [H3 [[_ H4]|(r2 & _ & H5)]].
+    + subst. auto.
+    + exfalso. eapply split_all_nonempty; eauto.
+Qed.
 
 (* decimal printing and parsing *)
+Lemma is_digit_dec n : is_digit (48 + n mod 10) = true.
+Proof. unfold is_digit. lia. Qed.
+
+Lemma dec_N_fuel_digits f : forall n acc,
+  forallb is_digit acc = true -> forallb is_digit (dec_N_fuel f n acc) = true.
+Proof.
+  induction f as [|f IH]; intros n acc H; cbn [dec_N_fuel]; auto.
+  assert (H' : forallb is_digit ((48 + n mod 10) :: acc) = true).
+  { cbn [forallb]. rewrite is_digit_dec, H. reflexivity. }
+  destruct (n / 10 =? 0); auto.
+Qed.
+
 Lemma dec_N_digits n : forallb is_digit (dec_N n) = true.
-Admitted.
+Proof. apply dec_N_fuel_digits. reflexivity. Qed.
+
+Lemma dec_N_fuel_nonempty f : forall n acc, acc <> [] -> dec_N_fuel f n acc <> [].
+Proof.
+  induction f as [|f IH]; intros n acc H; cbn [dec_N_fuel]; auto.
+  destruct (n / 10 =? 0); [discriminate|]. apply IH. discriminate.
+Qed.
 
 Lemma dec_N_nonempty n : dec_N n <> [].
-Admitted.
+Proof.
+  unfold dec_N. cbn [dec_N_fuel].
+  destruct (n / 10 =? 0); [discriminate|]. apply dec_N_fuel_nonempty. discriminate.
+Qed.
+
+Lemma digits_val_dec_step a n acc :
+  digits_val a ((48 + n mod 10) :: acc) = digits_val (a * 10 + n mod 10) acc.
+Proof.
+  cbn [digits_val]. rewrite is_digit_dec. f_equal. lia.
+Qed.
+
+Lemma dec_N_fuel_val f : forall n acc,
+  n < 2 ^ N.of_nat (S f) ->
+  digits_val 0 (dec_N_fuel (S f) n acc) = digits_val n acc.
+Proof.
+  induction f as [|f IH]; intros n acc H.
+  - change (2 ^ N.of_nat 1) with 2 in H.
+    cbn [dec_N_fuel]. assert (E : n / 10 =? 0 = true) by lia. rewrite E.
+    rewrite digits_val_dec_step. f_equal. lia.
+  - remember (S f) as f1. cbn [dec_N_fuel].
+    destruct (n / 10 =? 0) eqn:E.
+    + rewrite digits_val_dec_step. f_equal. lia.
+    + subst f1. rewrite IH.
+      * rewrite digits_val_dec_step. f_equal. lia.
+      * replace (N.of_nat (S (S f))) with (N.succ (N.of_nat (S f))) in H by lia.
+        rewrite N.pow_succ_r' in H. lia.
+Qed.
 
 Lemma digits_val_dec_N n : digits_val 0 (dec_N n) = Some n.
-Admitted.
+Proof.
+  unfold dec_N. rewrite dec_N_fuel_val; [reflexivity|].
+  destruct (N.eq_dec n 0) as [->|Hn].
+  - reflexivity.
+  - replace (N.of_nat (S (N.to_nat (N.log2 n)))) with (N.succ (N.log2 n)) by lia.
+    apply N.log2_spec. lia.
+Qed.
 
 Lemma parse_uint64_dec n : n <= max_u64 -> parse_uint64 (dec_N n) = Some n.
-Admitted.
+Proof.
+  intros H. unfold parse_uint64.
+  destruct (dec_N n) eqn:E; [exfalso; eapply dec_N_nonempty; eauto|].
+  rewrite <- E, digits_val_dec_N.
+  apply N.leb_le in H. rewrite H. reflexivity.
+Qed.
+
+Lemma dec_N_head n : exists c r, dec_N n = c :: r /\ is_digit c = true.
+Proof.
+  pose proof (dec_N_digits n) as H. pose proof (dec_N_nonempty n) as H0.
+  destruct (dec_N n) as [|c r]; [contradiction|].
+  cbn [forallb] in H. apply andb_true_iff in H. destruct H. eauto.
+Qed.
 
 Lemma parse_int64_dec z :
   (- (max_i64 + 1) <= z <= max_i64)%Z -> parse_int64 (dec_Z z) = Some z.
-Admitted.
+Proof.
+  intros H. unfold dec_Z. destruct (z <? 0)%Z eqn:Ez.
+  - unfold parse_int64.
+    change (45 =? 45) with true. change (45 =? 43) with false. cbn [orb].
+    destruct (dec_N (Z.to_N (- z))) eqn:E; [exfalso; eapply dec_N_nonempty; eauto|].
+    rewrite <- E, digits_val_dec_N. cbv zeta.
+    assert (E1 : (Z.of_N (Z.to_N (- z)) <=? max_i64 + 1)%Z = true) by lia.
+    rewrite E1. f_equal. lia.
+  - destruct (dec_N_head (Z.to_N z)) as (c & r & E & Hc).
+    unfold parse_int64. rewrite E.
+    assert (E1 : c =? 43 = false) by (unfold is_digit in Hc; lia).
+    assert (E2 : c =? 45 = false) by (unfold is_digit in Hc; lia).
+    rewrite E1, E2. cbn [orb]. rewrite <- E, digits_val_dec_N. cbv zeta.
+    assert (E3 : (Z.of_N (Z.to_N z) <=? max_i64)%Z = true) by lia.
+    rewrite E3. f_equal. lia.
+Qed.
+
+Lemma forallb_weaken {A} (P Q : A -> bool) l :
+  (forall x, P x = true -> Q x = true) -> forallb P l = true -> forallb Q l = true.
+Proof.
+  intros H. induction l as [|x l IH]; cbn [forallb]; auto.
+  rewrite !andb_true_iff. intros [H1 H2]. auto.
+Qed.
 
 Lemma dec_Z_chars z : forallb (fun b => is_digit b || (b =? 45)) (dec_Z z) = true.
-Admitted.
+Proof.
+  unfold dec_Z. destruct (z <? 0)%Z; cbn [forallb].
+  - rewrite N.eqb_refl, orb_true_r. cbn [andb].
+    eapply forallb_weaken; [|apply dec_N_digits]. intros x ->. reflexivity.
+  - eapply forallb_weaken; [|apply dec_N_digits]. intros x ->. reflexivity.
+Qed.
 
 Lemma dec_N_no sep n : is_digit sep = false -> contains sep (dec_N n) = false.
-Admitted.
+Proof.
+  intros H. apply contains_forallb.
+  eapply forallb_weaken; [|apply dec_N_digits]. intros x Hx. cbv beta.
+  apply negb_true_iff. apply N.eqb_neq. intros ->. congruence.
+Qed.
 
 Lemma dec_Z_no sep z : is_digit sep = false -> sep <> 45 -> contains sep (dec_Z z) = false.
-Admitted.
+Proof.
+  intros H H0. unfold dec_Z. destruct (z <? 0)%Z.
+  - rewrite contains_cons, dec_N_no by auto.
+    apply N.eqb_neq in H0. rewrite N.eqb_sym, H0. reflexivity.
+  - apply dec_N_no; auto.
+Qed.
 
 (* association lists *)
 Lemma alookup_aset_eq {A} k (v : A) m : alookup k (aset k v m) = Some v.
-Admitted.
+Proof.
+  induction m as [|[k' v'] m IH]; cbn [aset alookup].
+  - rewrite beq_refl. reflexivity.
+  - destruct (beq k k') eqn:E; cbn [alookup].
+    + rewrite beq_refl. reflexivity.
+    + rewrite E. exact IH.
+Qed.
 
 Lemma alookup_aset_ne {A} k k' (v : A) m : k <> k' -> alookup k' (aset k v m) = alookup k' m.
-Admitted.
+Proof.
+  intros H. assert (Hk : beq k' k = false) by (apply beq_neq; congruence).
+  induction m as [|[k2 v2] m IH]; cbn [aset alookup].
+  - rewrite Hk. reflexivity.
+  - destruct (beq k k2) eqn:E; cbn [alookup].
+    + apply beq_eq in E. subst k2. rewrite Hk. reflexivity.
+    + rewrite IH. reflexivity.
+Qed.
 
 Lemma alookup_aremove_eq {A} k (m : list (bytes * A)) : alookup k (aremove k m) = None.
-Admitted.
+Proof.
+  induction m as [|[k' v'] m IH]; cbn [aremove alookup]; auto.
+  destruct (beq k k') eqn:E; cbn [alookup]; auto.
+  rewrite E. exact IH.
+Qed.
 
 Lemma alookup_aremove_ne {A} k k' (m : list (bytes * A)) :
   k <> k' -> alookup k' (aremove k m) = alookup k' m.
-Admitted.
+Proof.
+  intros H.
+  induction m as [|[k2 v2] m IH]; cbn [aremove alookup]; auto.
+  destruct (beq k k2) eqn:E; cbn [alookup].
+  - apply beq_eq in E. subst k2.
+    assert (Hk : beq k' k = false) by (apply beq_neq; congruence).
+    rewrite Hk. exact IH.
+  - rewrite IH. reflexivity.
+Qed.
